@@ -18,7 +18,7 @@ sys.path.insert(0, os.path.dirname(os.path.abspath(__file__)))
 VERIF_ROOT = os.path.dirname(os.path.dirname(os.path.abspath(__file__)))
 from rustsrc import Source, Item, ExtractError, mask, match_close, loop_headers, split_args  # noqa: E402
 
-SECTION_KEYS = ('props+', 'loopensures', 'enumerate_loop', 'ghost_begin', 'ghost_at', 'derive-', 'slow', 'loopproof', 'proof_begin', 'assumed_from', 'props', 'requires', 'ensures', 'decreases', 'invariant', 'loopdec', 'proof', 'returns', 'attr',
+SECTION_KEYS = ('loopafter', 'desugar_any', 'props+', 'loopensures', 'enumerate_loop', 'ghost_begin', 'ghost_at', 'derive-', 'slow', 'loopproof', 'proof_begin', 'assumed_from', 'props', 'requires', 'ensures', 'decreases', 'invariant', 'loopdec', 'proof', 'returns', 'attr',
                 'derive+', 'nested', 'specialize', 'novac', 'external_body', 'rename', 'recommends', 'loopiter',
                 'opens_invariants', 'no_unwind')
 
@@ -37,6 +37,7 @@ class Contract:
         self.proof_begin = None
         self.ghost_begin = None   # ghost `let` statements at the very beginning of the body
         self.ghost_at = {}        # (callee, ordinal, 'before'|'after') -> ghost statements next to that call statement
+        self.loopafter = {}       # loop ordinal -> proof text placed right after the loop
         self.loopproof = {}     # loop ordinal -> proof text placed at the beginning of the loop body
         self.returns = None
         self.attrs = []
@@ -50,6 +51,7 @@ class Contract:
         self.no_unwind = False
         self.assumed_from = None
         self.enumerate_loops = []   # R6: loop ordinals to desugar from `.iter().enumerate()`
+        self.desugar_any = False    # R13: `E.iter().any(|x| C)` -> short-circuiting index loop
         self.slow = False       # verified in the thorough tier only (assumed, external_body, in the quick tier)
         self.props = None       # property ids this item's semantic clauses serve (None: unit default)
         self.props_add = []     # further properties whose units use this contract as an assumption (`@include f props+ ..`)
@@ -151,6 +153,9 @@ class Unit:
             if key == 'proof':
                 c.proof = (c.proof + '\n' if c.proof else '') + text
                 return
+            if key == 'loopafter':
+                c.loopafter[arg] = (c.loopafter.get(arg, '') + '\n' if c.loopafter.get(arg) else '') + text
+                return
             if key == 'loopproof':
                 c.loopproof[arg] = (c.loopproof.get(arg, '') + '\n' if c.loopproof.get(arg) else '') + text
                 return
@@ -230,15 +235,15 @@ class Unit:
                 continue
             if cur is None:
                 continue
-            in_proof = section is not None and section[0] in ('proof', 'proof_begin', 'loopproof', 'ghost_begin', 'ghost_at')
+            in_proof = section is not None and section[0] in ('proof', 'proof_begin', 'loopproof', 'loopafter', 'ghost_begin', 'ghost_at')
             if not line or ((line == '#' or line.startswith('# ')) and not in_proof):
                 if in_proof and buf is not None:
                     buf.append(raw)
                 continue
             first = line.split()[0]
             indent = len(raw) - len(raw.lstrip())
-            is_key = first in SECTION_KEYS and (section is None or section[0] not in ('proof', 'proof_begin', 'loopproof', 'ghost_begin', 'ghost_at') or indent <= 2)
-            if is_key and (clause_indent is None or indent < clause_indent or section is None or section[0] in ('proof', 'proof_begin', 'loopproof', 'ghost_begin', 'ghost_at')):
+            is_key = first in SECTION_KEYS and (section is None or section[0] not in ('proof', 'proof_begin', 'loopproof', 'loopafter', 'ghost_begin', 'ghost_at') or indent <= 2)
+            if is_key and (clause_indent is None or indent < clause_indent or section is None or section[0] in ('proof', 'proof_begin', 'loopproof', 'loopafter', 'ghost_begin', 'ghost_at')):
                 flush_clause()
                 rest = line[len(first):].strip()
                 c = target()
@@ -250,6 +255,10 @@ class Unit:
                     clause_indent = None
                 elif first in ('proof', 'proof_begin', 'ghost_begin'):
                     section = (first, None)
+                    clause_indent = None
+                    buf = []
+                elif first == 'loopafter':
+                    section = ('loopafter', int(rest))
                     clause_indent = None
                     buf = []
                 elif first == 'loopproof':
@@ -307,6 +316,9 @@ class Unit:
                 elif first == 'enumerate_loop':
                     c.enumerate_loops.append(int(rest))
                     section = None
+                elif first == 'desugar_any':
+                    c.desugar_any = True
+                    section = None
                 elif first == 'no_unwind':
                     c.no_unwind = True
                     section = None
@@ -323,7 +335,7 @@ class Unit:
                 continue
             if section is None:
                 raise ExtractError('%s:%d: text outside a section: %s' % (self.path, i, line))
-            if section[0] in ('proof', 'proof_begin', 'loopproof', 'ghost_begin', 'ghost_at'):
+            if section[0] in ('proof', 'proof_begin', 'loopproof', 'loopafter', 'ghost_begin', 'ghost_at'):
                 buf.append(raw)
                 continue
             if clause_indent is None:
@@ -495,7 +507,36 @@ class Emitter:
         self.rules.add('R6')
         return body[:kw] + new + body[close + 1:]
 
+    def desugar_any_calls(self, body, fnid):
+        """R13: `E.iter().any(|x| C)`  ->  `{ let mut any_found = false; let mut any_index: usize = 0;
+        while any_index < E.len() && !any_found { let x = &E[any_index]; if C { any_found = true; } any_index += 1; } any_found }`
+        (Iterator::any over a slice: true iff C holds for some element, evaluated left to right, stopping at the first hit)"""
+        n = 0
+        while True:
+            masked = mask(body)
+            m = re.search(r'([A-Za-z_][\w.]*)\s*\.iter\(\)\s*\.any\(', masked)
+            if not m:
+                break
+            par = m.end() - 1
+            close = match_close(masked, par)
+            inner = body[par + 1:close]
+            mc = re.match(r'\s*\|\s*(\w+)\s*\|\s*(.*)$', inner, re.S)
+            if not mc:
+                raise ExtractError('%s: `.iter().any(..)` without a closure `|x| ..` (R13 not applicable)' % fnid)
+            e, x, c = m.group(1), mc.group(1), mc.group(2).strip()
+            new = ('{ let mut any_found = false; let mut any_index: usize = 0;\n            while any_index < %s.len() && !any_found {\n                let %s = &%s[any_index];\n'
+                   '                if %s { any_found = true; }\n                any_index += 1;\n            }\n            any_found }' % (e, x, e, c))
+            body = body[:m.start()] + new + body[close + 1:]
+            n += 1
+            if n > 50:
+                raise ExtractError('%s: R13 does not terminate' % fnid)
+        if n:
+            self.rules.add('R13')
+        return body
+
     def render_body(self, body, contract, fnid):
+        if contract.desugar_any:
+            body = self.desugar_any_calls(body, fnid)
         for k in contract.enumerate_loops:
             body = self.desugar_enumerate(body, k, fnid)
         masked = mask(body)
@@ -539,6 +580,9 @@ class Emitter:
             if k in contract.loopproof:
                 ptxt = '\n' + mark('        proof {\n' + contract.loopproof[k] + '\n        }', fnid + '::proof')
                 edits.append((br + 1, ptxt))
+            if k in contract.loopafter:
+                ptxt = '\n' + mark('        proof {\n' + contract.loopafter[k] + '\n        }', fnid + '::proof')
+                edits.append((match_close(masked, br) + 1, ptxt))
             if inv or dec or lens:
                 ins = '\n'
                 ins += clause_block('invariant_except_break' if lens else 'invariant', inv or [], fnid, 'inv%d' % k, indent='        ')
